@@ -5,6 +5,7 @@ import (
 	"bytes"
 	"encoding/xml"
 	"fmt"
+	"sort"
 	"strings"
 
 	"golang.org/x/net/html"
@@ -63,24 +64,40 @@ func (r *Reader) parseNavigation(zr *zip.Reader) (*TableOfContents, error) {
 
 // findNavDocument finds the EPUB 3 nav document in the manifest.
 func (r *Reader) findNavDocument() *ManifestItem {
-	for _, item := range r.pkg.Manifest {
+	return r.firstManifestItem(func(item ManifestItem) bool {
 		for _, prop := range item.Properties {
 			if prop == "nav" {
-				return &item
+				return true
 			}
 		}
-	}
-	return nil
+		return false
+	})
 }
 
 // findNCX finds the NCX document in the manifest.
 func (r *Reader) findNCX() *ManifestItem {
-	for _, item := range r.pkg.Manifest {
-		if item.MediaType == "application/x-dtbncx+xml" {
-			return &item
+	return r.firstManifestItem(func(item ManifestItem) bool {
+		return item.MediaType == "application/x-dtbncx+xml"
+	})
+}
+
+// firstManifestItem returns the matching manifest item with the smallest ID, or
+// nil if none matches. The manifest is a map: taking the first match of a range
+// over it made the choice between several matching items (a package with two
+// nav documents, or two NCX files) change from run to run.
+func (r *Reader) firstManifestItem(match func(ManifestItem) bool) *ManifestItem {
+	var ids []string
+	for id, item := range r.pkg.Manifest {
+		if match(item) {
+			ids = append(ids, id)
 		}
 	}
-	return nil
+	if len(ids) == 0 {
+		return nil
+	}
+	sort.Strings(ids)
+	item := r.pkg.Manifest[ids[0]]
+	return &item
 }
 
 // parseNavXHTML parses an EPUB 3 nav document (XHTML with nav element).
